@@ -339,7 +339,7 @@ def _verdict(pid, mod, tier, seed, cases, results, globals_, inconclusive, t_sta
         "assumptions": getattr(mod, "ASSUMPTIONS", []), "wall_s": round(wall, 2), "violations": nviol,
         "verdict": "violated" if nviol else ("inconclusive" if inconclusive else "held"),
     }
-    if not replay:
+    if not replay and not os.environ.get("VERIF_NO_EVIDENCE"):
         os.makedirs(os.path.join(VERIF, "evidence"), exist_ok=True)
         with open(os.path.join(VERIF, "evidence", "%s.json" % pid), "w") as fh:
             fh.write(json.dumps(_jsonable(ev), indent=1, sort_keys=True))
